@@ -126,8 +126,23 @@ def run_history(ctx, idx, case):
     hub = ctx.hub
     ops = case["ops"]
     reports = []
+    api_handed = {}     # target -> {printed name: URI} as answered at the container's public method (not at the hooked manager)
 
     def on_step(i, op, out, res, st):
+        if op[0] == "vqn" and out == "ok" and res is not None:
+            # the same clauses at the API boundary: what the *container* answers (a layer above the hooked manager methods)
+            spec = op[2]
+            ctx.count("api_boundary.answers")
+            if spec["form"] == "qn" and res.uri != spec["ns"] + spec["local"]:
+                reports.append({"step": i, "op": op, "what": "(a) %s.valid_qualified_name(QualifiedName <%s>) answered <%s>"
+                                % (op[1], spec["ns"] + spec["local"], res.uri), "witness": {"clause": "a", "at": "container method"}})
+            printed = str(res)
+            if not (not res.namespace.prefix and ":" in res.localpart):
+                seen = api_handed.setdefault(op[1], {})
+                if printed in seen and seen[printed] != res.uri and (":" in printed or not monitors.ns_state(st.tg[op[1]]._namespaces).undisciplined):
+                    reports.append({"step": i, "op": op, "what": "(c) %s answered the printed name %r for <%s> and now for <%s>" % (op[1], printed, seen[printed], res.uri),
+                                    "witness": {"clause": "c", "at": "container method"}})
+                seen.setdefault(printed, res.uri)
         monitors.ns_full_check(st.doc)   # (b), (c) over all scopes and all names so far
         if case["mode"] == "program":
             monitors.ns_held_check(st.doc)   # (c) over the names the records hold
@@ -214,6 +229,8 @@ def floors(counters, tier, extra):
                  "str-uri-compaction"):
         if counters.get("mon.NS.path." + path, 0) < need // 4:
             out.append("resolution path %s produced only %d names" % (path, counters.get("mon.NS.path." + path, 0)))
+    if counters.get("api_boundary.answers", 0) < need:
+        out.append("answers of the containers' own valid_qualified_name judged only %d times" % counters.get("api_boundary.answers", 0))
     if counters.get("mon.NS.renamed_on_add", 0) < need:
         out.append("prefix clashes (renamed on add) seen only %d times" % counters.get("mon.NS.renamed_on_add", 0))
     if counters.get("mon.NS.monitor_errors", 0):
